@@ -108,6 +108,7 @@ type aofEnv struct {
 	t      *testing.T
 	srv    *redisd.Server
 	events int
+	runID  string // replication id the source stream is read under ("" = aofRunID)
 }
 
 func newAofEnv(t *testing.T) *aofEnv {
@@ -163,7 +164,11 @@ func (e *aofEnv) start(ro *RedisOutput, items []sItem, startOff int64) *aofRun {
 	g := newGate()
 	ctx, cancel := context.WithCancel(context.Background())
 	r := &aofRun{env: e, ro: ro, g: g, cancel: cancel, done: make(chan error, 1), items: items}
-	rd := newHReader(g, aofRunID, startOff, -1, true)
+	rid := e.runID
+	if rid == "" {
+		rid = aofRunID
+	}
+	rd := newHReader(g, rid, startOff, -1, true)
 	go func() { r.done <- ro.Send(ctx, rd) }()
 	aofWait()
 	r.poll()
